@@ -70,6 +70,9 @@ fam({'C06': ('main', 'all'), 'C07': ('main', 'all')},
     driver='pubsub', tv='PubSubTV',
     mc_quick=[('PubSubL2', 'PubSubL2')], mc_thorough=[('PubSubL2', 'PubSubL2'), ('PubSubL2', 'PubSubL2_2s'), ('PubSubL2', 'PubSubL2_3u')],
     n=(80, 300, 2000, 8000))
+# C06: a larger population (one back-to-back sender, two standing subscribers, waves of 24-36 short-lived SubscribeContext
+# subscribers), free-running only
+F['C06'] = dict(F['C06'], legs=[dict(driver='pubsub', profile='herd', prop='all', tv='PubSubTV', n=(0, 1, 0, 6), mc_quick=[], mc_thorough=[])])
 fam({'C08': ('main', 'all')},
     driver='caster', tv='CasterTV',
     mc_quick=[('PubSubL2', 'PubSubL2')], mc_thorough=[('PubSubL2', 'PubSubL2'), ('PubSubL2', 'PubSubL2_2s'), ('PubSubL2', 'PubSubL2_3u')],
